@@ -551,13 +551,16 @@ func (cpu *CPU) cmdRead16() uint16 {
 	case m_DP, m_DP_X, m_DP_Y, m_Stack_Relative:
 		return cpu.nRead16_wrap(0x00, cpu.StepInfo.Addr)
 
+	case m_Absolute_X_Indirect:
+		// the pointer lives in the program bank and wraps inside it
+		return cpu.nRead16_wrap(cpu.RK, uint16(cpu.StepInfo.EA))
+
 	case m_DP_Indirect_Long,
 		m_DP_Indirect_Long_Y,
 		m_Absolute_Long,
 		m_Absolute_Long_X,
 		m_Absolute_X,
 		m_Absolute_Y,
-		m_Absolute_X_Indirect,
 		m_DP_Indirect_Y,
 		m_Stack_Relative_Indirect_Y:
 		ll := cpu.Bus.EaRead(cpu.StepInfo.EA) // todo - zastapic to jakos?
